@@ -154,6 +154,18 @@ func checkGrammar(c *GramCase) (err error) {
 		if _, e7 := f.Delete("GET", p); e7 != nil {
 			return fmt.Errorf("pattern %q: Delete of the route registered through HandleRoute failed: %v", p, e7)
 		}
+		// registered twice in one transaction under a verb the router has not seen yet (a set-up routine that tolerates "already
+		// there"): the second call is refused as a duplicate, the pattern stays registered
+		txn := f.Txn(true)
+		_, e8 := txn.Handle("BREW", p, nop)
+		_, e9 := txn.Handle("BREW", p, nop)
+		txn.Commit()
+		if e8 != nil || !errors.Is(e9, fox.ErrRouteExist) || !f.Has("BREW", p) {
+			return fmt.Errorf("pattern %q: registered twice in one transaction under a new verb: first err=%v, second err=%v (want ErrRouteExist), registered afterwards=%v", p, e8, e9, f.Has("BREW", p))
+		}
+		if _, e10 := f.Delete("BREW", p); e10 != nil {
+			return fmt.Errorf("pattern %q: Delete under the new verb failed: %v", p, e10)
+		}
 	}
 	return nil
 }
